@@ -214,10 +214,14 @@ func (g *graphMemoizer) Objects(ctx context.Context, s *node.Node, p *predicate.
 		}
 	}
 	wg.Wait()
+	if err != nil {
+		// A failed lookup may have delivered only part of its results: do not memoize them.
+		return err
+	}
 	g.mu.Lock()
 	g.memO[k] = mobjs
 	g.mu.Unlock()
-	return err
+	return nil
 }
 
 // Subject pushes to the provided channel the subjects for the give predicate
@@ -283,10 +287,14 @@ func (g *graphMemoizer) Subjects(ctx context.Context, p *predicate.Predicate, o 
 		}
 	}
 	wg.Wait()
+	if err != nil {
+		// A failed lookup may have delivered only part of its results: do not memoize them.
+		return err
+	}
 	g.mu.Lock()
 	g.memN[k] = msubs
 	g.mu.Unlock()
-	return err
+	return nil
 }
 
 // PredicatesForSubject pushes to the provided channel all the predicates
@@ -342,10 +350,14 @@ func (g *graphMemoizer) PredicatesForSubject(ctx context.Context, s *node.Node, 
 		}
 	}
 	wg.Wait()
+	if err != nil {
+		// A failed lookup may have delivered only part of its results: do not memoize them.
+		return err
+	}
 	g.mu.Lock()
 	g.memP[k] = mpreds
 	g.mu.Unlock()
-	return err
+	return nil
 }
 
 // PredicatesForObject pushes to the provided channel all the predicates known
@@ -401,10 +413,14 @@ func (g *graphMemoizer) PredicatesForObject(ctx context.Context, o *triple.Objec
 		}
 	}
 	wg.Wait()
+	if err != nil {
+		// A failed lookup may have delivered only part of its results: do not memoize them.
+		return err
+	}
 	g.mu.Lock()
 	g.memP[k] = mpreds
 	g.mu.Unlock()
-	return err
+	return nil
 }
 
 // PredicatesForSubjectAndObject pushes to the provided channel all predicates
@@ -460,10 +476,14 @@ func (g *graphMemoizer) PredicatesForSubjectAndObject(ctx context.Context, s *no
 		}
 	}
 	wg.Wait()
+	if err != nil {
+		// A failed lookup may have delivered only part of its results: do not memoize them.
+		return err
+	}
 	g.mu.Lock()
 	g.memP[k] = mpreds
 	g.mu.Unlock()
-	return err
+	return nil
 }
 
 // TriplesForSubject pushes to the provided channel all triples available for
@@ -519,10 +539,14 @@ func (g *graphMemoizer) TriplesForSubject(ctx context.Context, s *node.Node, lo 
 		}
 	}
 	wg.Wait()
+	if err != nil {
+		// A failed lookup may have delivered only part of its results: do not memoize them.
+		return err
+	}
 	g.mu.Lock()
 	g.memT[k] = mts
 	g.mu.Unlock()
-	return err
+	return nil
 }
 
 // TriplesForPredicate pushes to the provided channel all triples available
@@ -578,10 +602,14 @@ func (g *graphMemoizer) TriplesForPredicate(ctx context.Context, p *predicate.Pr
 		}
 	}
 	wg.Wait()
+	if err != nil {
+		// A failed lookup may have delivered only part of its results: do not memoize them.
+		return err
+	}
 	g.mu.Lock()
 	g.memT[k] = mts
 	g.mu.Unlock()
-	return err
+	return nil
 }
 
 // TriplesForObject pushes to the provided channel all triples available for
@@ -637,10 +665,14 @@ func (g *graphMemoizer) TriplesForObject(ctx context.Context, o *triple.Object, 
 		}
 	}
 	wg.Wait()
+	if err != nil {
+		// A failed lookup may have delivered only part of its results: do not memoize them.
+		return err
+	}
 	g.mu.Lock()
 	g.memT[k] = mts
 	g.mu.Unlock()
-	return err
+	return nil
 }
 
 // TriplesForSubjectAndPredicate pushes to the provided channel all triples
@@ -696,10 +728,14 @@ func (g *graphMemoizer) TriplesForSubjectAndPredicate(ctx context.Context, s *no
 		}
 	}
 	wg.Wait()
+	if err != nil {
+		// A failed lookup may have delivered only part of its results: do not memoize them.
+		return err
+	}
 	g.mu.Lock()
 	g.memT[k] = mts
 	g.mu.Unlock()
-	return err
+	return nil
 }
 
 // TriplesForPredicateAndObject pushes to the provided channel all triples
@@ -755,10 +791,14 @@ func (g *graphMemoizer) TriplesForPredicateAndObject(ctx context.Context, p *pre
 		}
 	}
 	wg.Wait()
+	if err != nil {
+		// A failed lookup may have delivered only part of its results: do not memoize them.
+		return err
+	}
 	g.mu.Lock()
 	g.memT[k] = mts
 	g.mu.Unlock()
-	return err
+	return nil
 }
 
 // Exist checks if the provided triple exists on the store.
@@ -829,8 +869,12 @@ func (g *graphMemoizer) Triples(ctx context.Context, lo *storage.LookupOptions, 
 		}
 	}
 	wg.Wait()
+	if err != nil {
+		// A failed lookup may have delivered only part of its results: do not memoize them.
+		return err
+	}
 	g.mu.Lock()
 	g.memT[k] = mts
 	g.mu.Unlock()
-	return err
+	return nil
 }
